@@ -12,6 +12,7 @@ from nrel.hive.state.simulation_state.update.charging_price_update import Chargi
 from nrel.hive.state.simulation_state.update.simulation_update import SimulationUpdateFunction
 from nrel.hive.state.simulation_state.update.step_simulation import StepSimulation
 from nrel.hive.state.simulation_state.update.update_requests_from_file import UpdateRequestsFromFile
+from nrel.hive.util import verif_hooks
 
 if TYPE_CHECKING:
     from nrel.hive.runner import RunnerPayload
@@ -74,6 +75,8 @@ class Update(NamedTuple):
         init_rp = runner_payload._replace(
             s=runner_payload.s._replace(applied_instructions=immutables.Map())
         )
+        if verif_hooks.ENABLED:
+            verif_hooks.emit("step_begin", payload=init_rp)
 
         # run each pre_step_update
         pre_step_result = ft.reduce(_apply_fn, self.pre_step_update, UpdatePayload(init_rp))
@@ -87,6 +90,8 @@ class Update(NamedTuple):
         next_update = Update(pre_step_result.updated_step_fns, updated_step_fn)
 
         updated_payload = runner_payload._replace(s=updated_sim, u=next_update)
+        if verif_hooks.ENABLED:
+            verif_hooks.emit("step_end", payload=updated_payload)
 
         return updated_payload
 
@@ -105,6 +110,10 @@ def _apply_fn(p: UpdatePayload, fn: SimulationUpdateFunction) -> UpdatePayload:
     and the update function possibly updated itself
     """
     result, updated_fn = fn.update(p.runner_payload.s, p.runner_payload.e)
+    if verif_hooks.ENABLED:
+        verif_hooks.emit(
+            "pre_step", fn=fn, before=p.runner_payload.s, after=result, env=p.runner_payload.e
+        )
 
     # if we received an updated version of this SimulationUpdateFunction, store it
     next_update_fns = (
